@@ -14,7 +14,7 @@ EXPLANATION = (
     "WebTransportUni arm of the uni-stream acceptor is guarded by the local enable_webtransport setting. "
     "Decides these clauses, not byte-level delivery."
     " C19-b also requires OpenBi/OpenUni to hand out the stream only on a path whose last has_remaining() test of the header buffer was false; C19-c requires both AsyncRead impls of BufRecvStream to poll the transport only with an empty buffer, to report end of stream only then, and to copy out the very chunk they took.")
-RULES = "C19-a id conversions/flows (A4); C19-b header tables, stream handed out only after the header is written in full (A11/A2); C19-c buffer survives split/into_inner/wrappers, push_bytes stores the whole transport buffer (shared), unframed readers deliver buffered bytes before end of stream (A4/A13/A3); C19-d gating (A3); shared through a proxy: C16-a under C19-b; C04-e/C04-f (poll_next_varint) under C19-b; C17-b (poll_send) under C19-a; C02-b (UnexpectedEnd conversion) under C19-b"
+RULES = "C19-a id conversions/flows (A4); C19-b header tables, a short-read session id propagated with `?`, stream handed out only after the header is written in full (A11/A2); C19-c buffer survives split/into_inner/wrappers, push_bytes stores the whole transport buffer (shared), unframed readers deliver buffered bytes before end of stream (A4/A13/A3); C19-d gating (A3); shared through a proxy: C16-a under C19-b; C04-e/C04-f (poll_next_varint) under C19-b; C17-b (poll_send) under C19-a; C02-b (UnexpectedEnd conversion) under C19-b"
 
 SID = "h3::webtransport::session_id::SessionId"
 STREAMID = "h3::proto::stream::StreamId"
@@ -211,6 +211,17 @@ def run(ctx):
             ctx.check(ok, "C19-b", b.key, "frame type 0x41 -> WebTransportStream(SessionId::decode)",
                       "Frame::WebTransportStream is not produced by `ty == WEBTRANSPORT_BI_STREAM` + SessionId::decode",
                       "", None, p.describe())
+
+        # a session id that is not buffered in full yet means `need more bytes`, with the count the varint decoder itself reports (through
+        # the UnexpectedEnd conversion, C02-b): the error of SessionId::decode is propagated by `?`, not replaced
+        ep = [p for p in ru.all_paths(ctx, "C19-b", b) if p.end == "return" and p.has_call("<%s as h3::proto::coding::Decode>::decode" % SID)
+              and p.outcomes("<%s as h3::proto::coding::Decode>::decode" % SID)[-1:] == ["Err"]]
+        ctx.floor("C19-b", "Frame::decode paths on which the session id could not be read", len(ep), 1)
+        for p in ep:
+            ctx.check(p.ret_shape() == "Residual(call:decode)", "C19-b", b.key, "a short-read session id is propagated as the decoder's own UnexpectedEnd",
+                      "when the session id behind the 0x41 signal is not complete Frame::decode answers %s instead of propagating the varint decoder's "
+                      "error: the number of bytes asked for is wrong and a header split over two chunks is never recognised (or the read stalls)"
+                      % p.ret_shape(), "", None, p.describe())
 
     # ------------------------------------------------------------ C19-c bytes behind the header survive
     shared.bufrecv_poll_data(ctx, "C19-c")
